@@ -27,4 +27,12 @@ theorem C18_protocol_header (legacy : Bool) (cat : Cat) (a b c : Nat) (ha : a < 
       .ok (8, 0, .protocolHeader (.int a) (.int b) (.int c)) := by
   exact Proofs.protocol_header_roundtrip legacy cat a b c ha hb hc ch rest
 
+/-- D12: the empty content body `ContentBody(b'')` is encoded as the 8-byte frame
+`03 <channel> 00000000 CE`, and that frame decodes to the empty body, consuming exactly 8 bytes, on
+every channel and whatever follows it -/
+theorem C18_empty_body (legacy : Bool) (cat : Cat) (ch : Nat) (hc : ch < 65536) (rest : Bytes) :
+    ∃ bs, Frame.marshal legacy cat (.body (.bytes [])) (.int ch) = .ok bs ∧ bs.length = 8 ∧
+      Frame.unmarshal cat (bs ++ rest) = .ok (8, ch, .body (.bytes [])) := by
+  exact Proofs.empty_body_roundtrip legacy cat ch hc rest
+
 end Pamqp.Props
